@@ -287,6 +287,31 @@ func runC16(c *Ctx) {
 	})
 	// values in which one pointer is reachable twice (no cycle): each occurrence is just a value
 	shared := append(sharedPointerValues(), marshalerValues()...)
+	// annotated values whose annotation symbols get ids beyond one byte (more than 118 distinct
+	// symbols are interned before them)
+	{
+		many := map[string]int{}
+		for i := 0; i < 150; i++ {
+			many[fmt.Sprintf("key_%03d", i)] = i
+		}
+		tok := func(s string) ion.SymbolToken { return ion.NewSymbolTokenFromString(s) }
+		var ws []wrapInt
+		for i := 0; i < 200; i++ {
+			ws = append(ws, wrapInt{V: i, A: []ion.SymbolToken{tok(fmt.Sprintf("sensor_%03d", i))}})
+		}
+		shared = append(shared,
+			struct {
+				M map[string]int `ion:"m"`
+				W wrapInt        `ion:"w"`
+				X wrapInt        `ion:"x"`
+			}{many, wrapInt{V: 1250, A: []ion.SymbolToken{tok("kWh")}}, wrapInt{V: 7, A: []ion.SymbolToken{tok("key_149"), tok("late_one"), tok("late_two")}}},
+			ws,
+			struct {
+				L []wrapInt `ion:"l"`
+				S []string  `ion:"s,omitempty"`
+			}{L: ws[60:190]},
+		)
+	}
 	c.Parallel(len(shared), func(w, i int) {
 		v := reflect.ValueOf(shared[i])
 		t := v.Type()
